@@ -114,6 +114,18 @@ def gen_cases(tier: str, seed: int):
                     cases.append({'name': f'supersede-delete-{storage}-{lifecycle}-{delay}-{gap}', 'desc': {
                         'handlers': HS, 'settings': S, 'storage': storage, 'lifecycle': lifecycle, 'quiet': 15.0, 'horizon': 300.0,
                         'timeline': base_tl + [[round(5.0 + gap, 3), 'delete', 'a']]}})
+    # a built-in kind whose listing and watch events must agree on what the object IS: ReplicaSets owned by Deployments get their own storage keys, so the
+    # records written in a cycle that began with a listing are found again in the cycles that begin with watch events (two restarts, two resume handlers)
+    RS = {'group': 'apps', 'version': 'v1', 'plural': 'replicasets', 'kind': 'ReplicaSet', 'namespaced': True}
+    for owned in (True, False):
+        for storage in ('default', 'annotations'):
+            HR = [{'kind': 'create', 'id': 'c1', 'resource': 'replicasets'}, {'kind': 'update', 'id': 'u1', 'resource': 'replicasets'},
+                  {'kind': 'resume', 'id': 'r1', 'resource': 'replicasets'}, {'kind': 'resume', 'id': 'r2', 'resource': 'replicasets', 'script': [['temp', 1.0], ['ok'], ['temp', 1.0], ['ok']]}]
+            body = {'spec': {'x': 0}, 'metadata': ({'ownerReferences': [{'apiVersion': 'apps/v1', 'kind': 'Deployment', 'name': 'd', 'uid': 'dep-1', 'controller': True}]} if owned else {})}
+            cases.append({'name': f'replicaset-owned{int(owned)}-{storage}', 'desc': {
+                'handlers': HR, 'settings': S, 'storage': storage, 'quiet': 15.0, 'horizon': 300.0, 'plural': 'replicasets', 'extra_resources': [RS],
+                'timeline': [[0, 'start', 'op1'], [1, 'create', 'a', body], [4, 'stop_wait', 'op1'], [5, 'start', 'op2'], [12, 'stop_wait', 'op2'], [13, 'start', 'op3'],
+                             [20, 'edit', 'a', {'spec': {'x': 1}}]]}})
     n = 500 if tier == 'quick' else 20000
     for i in range(n):
         cases.append({'name': f'rnd{i}', 'desc': rnd_desc(rng, i)})
@@ -128,7 +140,8 @@ def run_case(case: dict[str, Any]) -> dict[str, Any]:
     Stall.take_hits()
     desc = case['desc']
     w = run_world(desc)
-    ix = Index(w)
+    PL = desc.get('plural', 'kopfexamples')
+    ix = Index(w, plural=PL)
     sv = ix.sv
     viol: list[dict[str, Any]] = []
     cov = {k: 0 for k in GATES}
@@ -138,7 +151,7 @@ def run_case(case: dict[str, Any]) -> dict[str, Any]:
     gq = next((e['g'] for e in w.events if e['k'] == 'note' and e['what'] == 'quiesced'), 1 << 60)
     sig_parts = []
     for name, inc in w.incs.items():
-        lists = [r for r in w.requests if r.client == name and r.kind == 'list' and r.plural == 'kopfexamples' and r.status == 200]
+        lists = [r for r in w.requests if r.client == name and r.kind == 'list' and r.plural == PL and r.status == 200]
         if not lists:
             continue
         first = lists[0]
@@ -174,7 +187,7 @@ def run_case(case: dict[str, Any]) -> dict[str, Any]:
                     # first seen in a RE-listing (it was created during a gap of the watch stream)? kopf marks every object first met in a listing as
                     # "noticed by listing", not only those of the first listing of the process
                     in_relist = [r for r in relists if r.g < calls[0]['g'] and any(v['rv'] <= int(r.result_rv) and v['type'] != 'DELETED' for v in w.history[uid])
-                                 and not any(t <= r.t and u == uid for st in w.sim.kube.streams if st.client.name == name and st.plural == 'kopfexamples' for t, _, u, _ in st.delivered)]
+                                 and not any(t <= r.t and u == uid for st in w.sim.kube.streams if st.client.name == name and st.plural == PL for t, _, u, _ in st.delivered)]
                     viol.append({'mech': 'resume-on-object-first-seen-in-relisting' if in_relist else 'resume-on-new-object',
                                  'msg': f"{h} ran for {uid}, which did not exist when {name} started (first seen {'in a re-listing after a broken stream' if in_relist else 'through the watch'})", 'witness': None})
                 # (an object met at start-up under deletion and never handled before is a deletion with the opted-in resume handlers mixed in:
